@@ -36,6 +36,7 @@ func init() {
 			{ID: "C06-R13", Title: "an error is wrapped as it is, not re-rendered through its text (shared with C01)", Floor: 1, Run: messagesAreNotFormats},
 			{ID: "C06-R14", Title: "contexts made from nothing are an explicit table", Floor: 6, Run: detachedContextsAreEnumerated},
 			{ID: "C06-R15", Title: "http servers follow the evaluation (request contexts, lifetime)", Floor: 2, Run: httpServersFollowTheEvaluation},
+			{ID: "C06-R16", Title: "evaluations end with the context's error", Floor: 2, Run: evaluationsEndWithTheContextError},
 		},
 	})
 }
